@@ -434,9 +434,34 @@ INTERNAL_MSG = [
 
 
 def run_verus(gen_path: str, linemap: dict, meta: dict, unit: str, rlimit: float = 30, timeout: int = 900):
+    """a contract-level failure is reported only if it persists under two other solver seeds: a proof that
+    merely became unstable (e.g. after a harmless edit) must not raise an alarm"""
+    r = _run_verus_once(gen_path, linemap, meta, unit, rlimit, timeout, seed=None)
+    if r["status"] == "violation":
+        persists = set((v["fn"], v["kind"]) for v in r["violations"])
+        for seed in (7, 1000003):
+            r2 = _run_verus_once(gen_path, linemap, meta, unit, rlimit * 2, timeout, seed=seed)
+            persists &= set((v["fn"], v["kind"]) for v in r2["violations"])
+            r["wall_s"] += r2["wall_s"]
+        keep = [v for v in r["violations"] if (v["fn"], v["kind"]) in persists]
+        unstable = [v for v in r["violations"] if (v["fn"], v["kind"]) not in persists]
+        for v in unstable:
+            r["undecided"].append(dict(obligation=v["obligation"], kind="unstable", fn=v["fn"], line=v["line"],
+                                       msg=v["msg"] + " (did not persist under other solver seeds: unstable proof, not a violation)", rendered=v["rendered"]))
+        r["violations"] = keep
+        if not keep:
+            r["status"] = "undecided"
+            r["reason"] = "contract-level failure did not persist under other solver seeds"
+    return r
+
+
+def _run_verus_once(gen_path: str, linemap: dict, meta: dict, unit: str, rlimit: float, timeout: int, seed=None):
     t0 = time.time()
     cmd = ["verus", gen_path, "--output-json", "--time-expanded", "--triggers-mode", "silent", "--multiple-errors", "5",
-           "--rlimit", str(rlimit), "--", "--error-format=json"]
+           "--rlimit", str(rlimit)]
+    if seed is not None:
+        cmd += ["--smt-option", f"smt.random_seed={seed}", "--smt-option", f"sat.random_seed={seed}"]
+    cmd += ["--", "--error-format=json"]
     try:
         p = subprocess.run(cmd, capture_output=True, text=True, timeout=timeout, cwd=os.path.dirname(gen_path))
     except subprocess.TimeoutExpired:
